@@ -170,8 +170,9 @@ structure IgnPlan (Val : Type) where
   nms : List Val                -- names to NULL (cross-populated)
   star : Bool
   dstar : Bool
+  keep : List Val := []         -- keyword-only parameter names: parameters, not extra keywords (`'**'` leaves them alone)
 
-def ignPlan (k : Consts Val) (explicit0 : List Val) (ign : List (Ign Val)) (selfLike : Bool) : IgnPlan Val :=
+def ignPlan (k : Consts Val) (explicit0 : List Val) (ign : List (Ign Val)) (selfLike : Bool) (kwonly : List Val := []) : IgnPlan Val :=
   let idx0 := ignIdx ign
   let nms0 := ignNames ign
   -- "if ignore self, remove self instead of NULL it"
@@ -185,7 +186,7 @@ def ignPlan (k : Consts Val) (explicit0 : List Val) (ign : List (Ign Val)) (self
   let idxX := (en.filter (fun p => nms1.contains p.2)).map (·.1)
   let nmsX := (en.filter (fun p => idx0.contains p.1)).map (·.2)
   { explicit := explicit, selfRemoved := selfRemoved, selfName := explicit0.head?,
-    idx := idx0 ++ idxX, nms := nms1 ++ nmsX, star := nms0.contains k.star, dstar := nms0.contains k.dstar }
+    idx := idx0 ++ idxX, nms := nms1 ++ nmsX, star := nms0.contains k.star, dstar := nms0.contains k.dstar, keep := kwonly }
 
 /-- NULL out the ignored positionals (index `i` onwards); `'*'` clips the extra positionals -/
 def maskFrom (k : Consts Val) (p : IgnPlan Val) : Nat → List Val → List Val
@@ -207,7 +208,7 @@ def keygenWith (k : Consts Val) (p : IgnPlan Val) (defaults : List (Val × Val))
   -- NULL out the ignored kwds (only names already present, or explicitly named)
   let keys0 := keys userKwds1 ++ p.explicit
   let userKwds2 := (p.nms.filter (fun n => keys0.contains n)).foldl (fun acc n => put acc n k.null) userKwds1
-  let userKwds3 := if p.dstar then popExtra userKwds2 c.kwds p.explicit else userKwds2
+  let userKwds3 := if p.dstar then popExtra userKwds2 c.kwds (p.explicit ++ p.keep) else userKwds2
   -- transfer all from user_args to user_kwds, except for any varargs
   let userKwds4 := update userKwds3 (p.explicit.zip userArgs2)
   (userArgs2.drop p.explicit.length, userKwds4)
@@ -216,7 +217,7 @@ def keygen (k : Consts Val) (f : Func Val) (ign : List (Ign Val)) (c : PCall Val
     List Val × List (Val × Val) :=
   match kSignature f with
   | none => (c.args, c.kwds)                   -- `safe` and signature failed: unmolested
-  | some (explicit0, defaults) => keygenWith k (ignPlan k explicit0 ign c.selfLike) defaults c
+  | some (explicit0, defaults) => keygenWith k (ignPlan k explicit0 ign c.selfLike (names f.kwonly)) defaults c
 
 /-! ## code: `keymap.encode` / `keymap.encrypt` (the structured key handed to the encoder) -/
 
